@@ -96,7 +96,11 @@ XModeCalls(md) == << KF("enable_deferred", md[1]), KF("enable_fast", md[2]) >>
 
 (* ------------------ in-contract argument enumeration ------------------- *)
 IsolatedV(st) == {v \in LiveV(st) : \A e \in LiveE(st) : v \notin EdgeVertSet(st, e)}
-Free6(st) == {S \in KSub(6, FreeHF(st)) : ClosedSurface(st, SortedSeq(S))}
+(* closed sets of six free halffaces: searched among the free halffaces on  *)
+(* the vertex set of one cube of the seed's shape                          *)
+Free6(st, key) ==
+  UNION {LET F == {hf \in FreeHF(st) : Rng(HFVerts(st, hf)) \subseteq Rng(w)} IN
+         {S \in KSub(6, F) : ClosedSurface(st, SortedSeq(S))} : w \in HexCubesOf(key[2])}
 FirstN(S, n) == LET q == SortedSeq(S) IN {q[i] : i \in 1 .. (IF Len(q) < n THEN Len(q) ELSE n)}
 
 XCallsOf(st, op, key) ==
@@ -129,11 +133,11 @@ XCallsOf(st, op, key) ==
     [] op = "split_face" -> {K(op, f, v, <<>>, FALSE) : f \in LiveF(st), v \in FirstN(IsolatedV(st), 1)}
     (* hexahedral: every ordering of every closed set of six free halffaces *)
     [] op = "add_cell_perm" ->
-         {KLF("add_cell", l, TRUE) : l \in UNION {SetToSeqs(S) : S \in Free6(st)}}
+         {KLF("add_cell", l, TRUE) : l \in UNION {SetToSeqs(S) : S \in Free6(st, key)}}
     (* invalid lists: one entry of a valid ordering replaced (duplicate,    *)
     (* opposite halfface, foreign halfface); wrong lengths                  *)
     [] op = "add_cell_bad" ->
-         LET bases == UNION {{SortedSeq(S), Rev(SortedSeq(S)), RotL(SortedSeq(S), 2)} : S \in Free6(st)}
+         LET bases == UNION {{SortedSeq(S), Rev(SortedSeq(S)), RotL(SortedSeq(S), 2)} : S \in Free6(st, key)}
              repl  == LiveHF(st)
          IN {KLF("add_cell", [b EXCEPT ![i] = x], TRUE) : b \in bases, i \in 1 .. 6, x \in repl}
             \cup {KLF("add_cell", SubSeq(b, 1, 5), TRUE) : b \in bases}
@@ -234,6 +238,10 @@ XSimNext ==
   /\ LET cs == XCalls(s, HistOps, org.key) IN
      cs # {} /\ \E c \in {RandomElement(cs)} : XStep(c, FALSE)
 XSimSpec == XInit /\ [][XSimNext]_vars
+
+(* a failed check of the model against the oracles is reported, the      *)
+(* exploration continues elsewhere (the state itself is not extended)     *)
+XReport == bad # "" => PrintT(<<"MBAD", ToJson([key |-> org.key, path |-> path, bad |-> bad])>>)
 
 (* seeds satisfy the state predicates and the query contracts              *)
 XSeedOK == (path = <<>>) =>
